@@ -11,9 +11,19 @@ Definition clamp (x lo hi : Z) : Z := Z.max lo (Z.min x hi).
 (** number of bits of s available in the window [from, from+w) *)
 Definition spec_k (s : list Z) (from w : Z) : Z := clamp (8 * zlen s - from) 0 w.
 
+(** [l] without its first [n] elements.  This is [skipn (Z.to_nat n) l] (lemma
+    [dropZ_skipn] in Proofs/FromStr32Proofs.v; the property theorems are stated
+    with [skipn]); written by recursion on the list so that the extracted
+    checker does not build the unary number [Z.to_nat n] for a start bit near 2^31. *)
+Fixpoint dropZ {A} (l : list A) (n : Z) : list A :=
+  match l with
+  | [] => []
+  | _ :: t => if n <=? 0 then l else dropZ t (n - 1)
+  end.
+
 (** bits [from, from+k) of s *)
 Definition sel_bits (s : list Z) (from k : Z) : list bool :=
-  firstn (Z.to_nat k) (skipn (Z.to_nat from) (msb_bits s)).
+  firstn (Z.to_nat k) (dropZ (msb_bits s) from).
 
 (** FromStr32 s from (from+w): (k, the w-bit value whose top k bits are the
     selected bits and whose other bits are 0) *)
